@@ -281,6 +281,12 @@ func (x *imgCtx) imgFileCase(imgPath, p string, n *node, dt string) {
 	if res := guard(func() error { var e error; xa, e = fsys.GetXattr(p); return e }); res.bad() {
 		return
 	}
+	if len(n.xattrs) > 0 && !mapsEqual(n.xattrs, xa) && xattrIndexUnknownExplains(n.xattrs, xa) {
+		// the trigger of finding ext4-xattr-name-index-unknown fires on this file (judged by checkNode): the SPEC reader
+		// names indices 8 and 10 as the reference tools do, the comparison would only repeat the finding
+		c.Stat("imgfile-skipped-xattr-name-index")
+		return
+	}
 	hp := "-"
 	if p != "." {
 		hp = hex.EncodeToString([]byte(p))
